@@ -24,7 +24,7 @@ ASSUMPTIONS = [
     "completeness (margin 0.1%) is asserted for open_deposit_mint, burn_and_withdraw and withdraw_uni_position only when the wallet covers the operation",
 ]
 MIN_NONTRIVIAL = {"quick": 3000, "thorough": 60000}
-REQUIRED_LABELS = ["mint.accepted", "mint.rejected.unsafe", "withdraw.accepted", "withdraw.rejected", "lp.deposited", "lp.withdraw.accepted", "liquidation.plain.half", "liquidation.plain.full", "liquidation.lp_first", "liquidation.capped", "twap.short_window", "twap.full_window", "safe.not_liquidated", "dust.rejected", "lp.pending", "twap.coarse_rows", "lp.read", "path.eth_flat"]
+REQUIRED_LABELS = ["mint.accepted", "mint.rejected.unsafe", "withdraw.accepted", "withdraw.rejected", "lp.deposited", "lp.withdraw.accepted", "liquidation.plain.half", "liquidation.plain.full", "liquidation.lp_first", "liquidation.capped", "twap.short_window", "twap.full_window", "safe.not_liquidated", "dust.rejected", "lp.pending", "twap.coarse_rows", "lp.read", "path.eth_flat", "ratio.view", "open.by_rate"]
 
 D = Decimal
 SCALE = D(10000)
@@ -60,10 +60,12 @@ def st_case(draw):
     ops = []
     for b in range(n):
         for _ in range(draw(st.integers(0, 3)) if b else draw(st.integers(1, 4))):
-            k = draw(st.sampled_from(["open", "open", "open_lp", "deposit", "mint", "burn_withdraw", "burn_withdraw", "lp_add", "lp_add", "lp_shrink", "lp_deposit", "lp_withdraw", "lp_read"]))
+            k = draw(st.sampled_from(["open", "open", "open_rate", "open_lp", "deposit", "mint", "burn_withdraw", "burn_withdraw", "lp_add", "lp_add", "lp_shrink", "lp_deposit", "lp_withdraw", "lp_read"]))
             v = draw(st.integers(0, 2))
             if k in ("open", "open_lp", "mint"):
                 ops.append([b, k, v, draw(st.sampled_from(["0.4", "0.5", "1", "3", "20"])), draw(st.sampled_from(["0", "0.5", "0.9", "0.999", "0.9999999", "1.0000001", "1.001", "1.2"]))])
+            elif k == "open_rate":
+                ops.append([b, k, v, draw(st.sampled_from(["0.4", "0.6", "1", "3", "20"])), draw(st.sampled_from(["1.2", "1.499", "1.5000001", "1.6", "2", "3.5"]))])
             elif k == "deposit":
                 ops.append([b, k, v, draw(st.sampled_from(["0", "0.3", "2", "1000"]))])
             elif k == "burn_withdraw":
@@ -233,6 +235,18 @@ def body(case, ctx: Ctx):
                         w.vaults.append(tgt)
                     ok, err = True, None
                     kind = "mint"
+                elif k == "open_rate":
+                    # the other public way to open a vault: collateral plus a target collateral ratio
+                    eth, rate = D(op[3]), D(op[4])
+                    must_accept = rate >= D("1.501") and eth >= D("0.5005") and wal_w >= eth * D("1.0001")
+                    total_coll = float(eth)
+                    ret = w.sq.open_deposit_mint_by_collat_rate(eth, rate)
+                    tgt = ret[0]
+                    w.vaults.append(tgt)
+                    ok, err, kind = True, None, "mint"
+                    labels.add("open.by_rate")
+                    coll_, debt_, _, _ = w.vault_ref(tgt)
+                    ctx.check(debt_ > 0 and abs(coll_ / debt_ - float(rate)) <= 1e-6 * float(rate), "mint.by_rate.ratio", lambda: f"bar {i} {op}: vault opened with {eth} ETH at target ratio {rate} holds collateral {coll_} over debt {debt_} = {coll_ / debt_ if debt_ else None}", case)
                 elif k == "deposit":
                     if not w.vaults:
                         continue
@@ -293,11 +307,11 @@ def body(case, ctx: Ctx):
                 ok, err = False, e
                 if k in ("lp_add", "lp_shrink", "lp_read"):
                     continue
-                kind = {"open": "mint", "open_lp": "mint", "mint": "mint", "deposit": "deposit", "burn_withdraw": "withdraw", "lp_deposit": "lp_deposit", "lp_withdraw": "lp.withdraw"}[k]
+                kind = {"open": "mint", "open_rate": "mint", "open_lp": "mint", "mint": "mint", "deposit": "deposit", "burn_withdraw": "withdraw", "lp_deposit": "lp_deposit", "lp_withdraw": "lp.withdraw"}[k]
                 tgt = None
             post = w.raw()
-            if not ok and k in ("open", "open_lp", "mint") and must_accept:
-                ctx.fail("mint.rejected_but_safe", f"bar {i} {op}: rejected ({type(err).__name__}: {err}) although the vault would hold {total_coll} ETH of collateral against {float(D(op[4])) * 100}% of the 1.5x limit, wallet WETH {wal_w}", case)
+            if not ok and k in ("open", "open_lp", "mint", "open_rate") and must_accept:
+                ctx.fail("mint.rejected_but_safe", f"bar {i} {op}: rejected ({type(err).__name__}: {err}) although the vault would hold {total_coll} ETH of collateral against {'ratio ' + op[4] if k == 'open_rate' else str(float(D(op[4])) * 100) + '% of the 1.5x limit'}, wallet WETH {wal_w}", case)
             if ok:
                 labels.add(f"{kind}.accepted")
                 # soundness: accepted => the vault is safe and not dust afterwards
@@ -322,6 +336,16 @@ def body(case, ctx: Ctx):
                 if "dust" in msg:
                     labels.add("dust.rejected")
                 labels.add(f"{kind}.rejected")
+        # ---- the vault's reported collateral ratio and liquidation price are those of the statement
+        for vk in list(w.sq.vault):
+            coll, debt, _, _ = w.vault_ref(vk)
+            got = ctx.guarded("ratio_view", case, w.sq.get_collat_ratio_and_liq_price, vk)
+            if got is not None and debt > 0:
+                labels.add("ratio.view")
+                short_idx = float(w.sq.vault[vk].osqth_short_amount) * w.nf() / 1e4
+                ctx.check(abs(float(got[0]) - coll / debt) <= 1e-8 * coll / debt and abs(float(got[1]) - coll / (1.5 * short_idx)) <= 1e-8 * coll / (1.5 * short_idx), "ratio.view", lambda: f"bar {i}: vault {vk.id} reports ratio {got[0]} / liquidation price {got[1]}; collateral {coll} ETH over debt {debt} ETH is {coll / debt}, and {coll / (1.5 * short_idx)}", case)
+            elif got is not None:
+                ctx.check(got[0] == 0 and got[1] == 0, "ratio.view", lambda: f"bar {i}: vault {vk.id} has no debt but reports {got}", case)
         # ---- end of bar: liquidation
         pre = w.raw()
         pre_ref = {}
